@@ -3,3 +3,4 @@ import OsyrisProofs.C15
 #print axioms Osyris.C15.C15_history_independent
 #print axioms Osyris.C15.C15_all_calls_fresh
 #print axioms Osyris.C15.C15_leak_witness
+#print axioms Osyris.C15.C15_no_stale_reader_fields
